@@ -70,3 +70,21 @@ func VerifBoltKeys(t *BoltTransport) (seqs []uint64, ids []string) {
 
 	return
 }
+
+// VerifSubState exposes the flags and the live queue of a subscriber (read at quiescence only).
+func VerifSubState(s *LocalSubscriber) (disconnected, ready bool, liveQueue []string, resp string) {
+	for _, u := range s.liveQueue {
+		liveQueue = append(liveQueue, u.ID)
+	}
+	resp = "-"
+	select {
+	case v := <-s.responseLastEventID:
+		resp = v
+	default:
+	}
+
+	return s.disconnected > 0, s.ready > 0, liveQueue, resp
+}
+
+// VerifBoltLastSeq exposes the in-memory lastSeq field.
+func VerifBoltLastSeq(t *BoltTransport) uint64 { return t.lastSeq }
